@@ -16,6 +16,8 @@ from kit import need_body, has_call, short, result_expr, mentions_field, thir_al
 
 
 def run(ck, facts, tier):
+    from shared import clauses as _clx
+    _clx.clauses_no_drop(ck, facts, "C06.CLAUSES-NO-DROP")
     R = "C06.ENV-KEYED"
     ck.rule(R, "types: InEnvironment has fields {environment, goal}, both covered by its derived Eq/Hash; Environment's only field `clauses` "
                "likewise (no hand-written impl skipping the hypotheses); keys of tables / cache: see C10.KEY")
